@@ -271,6 +271,59 @@ def ob_accepts(args: List[int], k_a: bool, k_b: bool, k_k: bool, extra: bool) ->
             return H.verdict(ok, "call %r %r: got %r, check before/after %r/%r" % (cargs, kwargs, got, before, after))
 
 
+INTERNAL_NAMES = ["func", "self", "args", "kwargs", "ignore_lst", "call_id", "shelving", "cls", "metadata",
+                  "object_name", "output", "fn", "function", "a"]
+NAME_VERBOSE = [0, 1, 11, 50]
+NAME_APIS = ["call", "shelve", "check", "force"]
+
+
+def ob_names(ni: int, vi: int, api: int, kw_form: bool) -> bool:
+    """
+    pre: 0 <= ni <= 13
+    pre: 0 <= vi <= 3
+    pre: 0 <= api <= 3
+    post: _
+    """
+    H.enter()
+    # a parameter may carry any name - also one that joblib uses for its own parameters; a call that spells it as a
+    # keyword is accepted by every entry point of the wrapper, at every verbosity (messages format the call)
+    name, vb, ap = INTERNAL_NAMES[H.select(ni, 0, 13)], NAME_VERBOSE[H.select(vi, 0, 3)], NAME_APIS[H.select(api, 0, 3)]
+    kf = bool(kw_form)
+    with H.native():
+        import contextlib
+        import io
+        from symx.stubs import fakefs
+        fs = fakefs.FS()
+        clock = memlib.Clock()
+        src = "LOG = []\ndef fn(%s, other=2):\n    LOG.append(1)\n    return ('fn', %s, other)\n" % (name, name)
+        with memlib.env(fs, clock), contextlib.redirect_stdout(io.StringIO()), contextlib.redirect_stderr(io.StringIO()):
+            memlib.fresh_process()
+            ns = memlib.define(fs, "c06names", src)
+            mem = memlib.new_memory(verbose=vb)
+            w = mem.cache(ns["fn"])
+            args, kwargs = ((), {name: 7}) if kf else ((7,), {})
+            want = ("fn", 7, 2)
+            try:
+                if ap == "call":
+                    got = w(*args, **kwargs)
+                elif ap == "shelve":
+                    got = w.call_and_shelve(*args, **kwargs).get()
+                elif ap == "force":
+                    got = w.call(*args, **kwargs)[0]         # documented: (output, metadata)
+                else:
+                    got = want if w.check_call_in_cache(*args, **kwargs) is False else "check_call_in_cache said True"
+                # the same call again, spelled the other way, is the same entry
+                del ns["LOG"][:]
+                again = w(7) if kf else w(**{name: 7})
+                hit = (len(ns["LOG"]) == 0) if ap != "check" else (len(ns["LOG"]) == 1)
+            except Exception as e:
+                return H.verdict(False, "fn(%s, other=2) called with %r %r through %s at verbose=%d: %s: %s" % (
+                    name, args, kwargs, ap, vb, type(e).__name__, e))
+            ok = got == want and again == want and hit
+            return H.verdict(ok, "fn(%s, other=2) %r %r via %s verbose=%d: got %r, again %r, hit=%r" % (
+                name, args, kwargs, ap, vb, got, again, hit))
+
+
 def validate():
     from symx.stubs import fakefs
     rows = fakefs.selfcheck()
@@ -281,6 +334,10 @@ def validate():
 
 def obligations(tier, seed):
     obs = []
+    obs.append({"name": "names", "fn": "ob_names", "mode": "S", "timeout": 600,
+                "bounds": "a parameter named like one of 13 joblib-internal parameter names (func, self, args, ...) passed "
+                          "by keyword or by position, through __call__ / call_and_shelve / check_call_in_cache / call, "
+                          "verbose in {0, 1, 11, 50}"})
     for prog in PROGS:
         cfgs = [(False, "none", 0), (False, "memory", 0), (False, "pickle", 2), (True, "memory", 0)]
         if tier == "thorough":
